@@ -46,7 +46,7 @@ _CMP = {
 _CALLS = {"len": len, "range": range, "abs": abs, "min": min, "max": max, "int": int, "set": set, "tuple": tuple, "list": list, "any": any, "all": all,
           "bool": bool, "frozenset": frozenset, "sorted": sorted, "sum": sum, "bytes": bytes}
 _TYPES = {"int": int, "float": float, "str": str, "bool": bool, "tuple": tuple, "list": list, "set": set, "frozenset": frozenset, "dict": dict, "bytes": bytes}
-_STRM = ("strip", "lstrip", "rstrip", "lower", "upper", "startswith", "endswith", "find", "count", "replace", "translate", "isalpha")
+_STRM = ("strip", "lstrip", "rstrip", "lower", "upper", "startswith", "endswith", "find", "count", "replace", "translate", "isalpha", "split", "splitlines", "join", "index", "rfind", "isdigit")
 _SETM = ("isdisjoint", "intersection", "issubset", "issuperset", "union", "difference")
 
 
@@ -130,6 +130,12 @@ def ev(node, env, calls=None):
                 return {"sorted": sorted, "min": min, "max": max}[n.func.id](*args_, **kws)
             if key in ("operator.itemgetter", "itemgetter") and n.args and not n.keywords and all(isinstance(a, ast.Constant) for a in n.args):
                 return operator.itemgetter(*[a.value for a in n.args])
+            if key in ("itertools.accumulate", "accumulate") and len(n.args) == 1 and all(k.arg == "initial" for k in n.keywords):
+                import itertools as _it
+
+                return list(_it.accumulate(go(n.args[0]), **{k.arg: go(k.value) for k in n.keywords}))
+            if key in ("itertools.chain.from_iterable", "chain.from_iterable") and len(n.args) == 1 and not n.keywords:
+                return [y for x in go(n.args[0]) for y in x]
             # a method of a sample object handed in by the rule (see Sample)
             if isinstance(n.func, ast.Attribute) and not n.keywords:
                 try:
@@ -164,12 +170,20 @@ def ev(node, env, calls=None):
                 if isinstance(recv, int) and not isinstance(recv, bool):
                     return recv.bit_length()
             raise CannotEval(f"call {key}")
-        if isinstance(n, (ast.ListComp, ast.GeneratorExp)) and len(n.generators) == 1 and isinstance(n.generators[0].target, ast.Name):
+        if isinstance(n, (ast.ListComp, ast.GeneratorExp)) and len(n.generators) == 1 and (isinstance(n.generators[0].target, ast.Name) or (
+                isinstance(n.generators[0].target, ast.Tuple) and all(isinstance(t_, ast.Name) for t_ in n.generators[0].target.elts))):
             g = n.generators[0]
             out = []
             for x in go(g.iter):
                 sub = dict(env)
-                sub[g.target.id] = x
+                if isinstance(g.target, ast.Name):
+                    sub[g.target.id] = x
+                else:
+                    vals_ = list(x)
+                    if len(vals_) != len(g.target.elts):
+                        raise CannotEval("unpack")
+                    for t_, v_ in zip(g.target.elts, vals_):
+                        sub[t_.id] = v_
                 if all(ev(c, sub, calls) for c in g.ifs):
                     out.append(ev(n.elt, sub, calls))
             return out
@@ -210,6 +224,13 @@ def run_pure(fn: ast.FunctionDef, args, calls=None, fuel=2000, extra=None, env_o
     """Fold a small *pure* helper (local assignments, for/if/return/break/continue over `ev` expressions) on one tuple of
     literal arguments.  Anything else raises CannotEval."""
     env = dict(extra or {})
+    # parameters the caller leaves out take their literal defaults
+    for a, d in zip(reversed(fn.args.args), reversed(fn.args.defaults)):
+        if isinstance(d, ast.Constant):
+            env[a.arg] = d.value
+    for a, d in zip(fn.args.kwonlyargs, fn.args.kw_defaults):
+        if isinstance(d, ast.Constant):
+            env[a.arg] = d.value
     env.update({a.arg: v for a, v in zip(fn.args.args, args)})
     if env_out is not None:
         env_out.update(env)
@@ -226,6 +247,8 @@ def run_pure(fn: ast.FunctionDef, args, calls=None, fuel=2000, extra=None, env_o
             if isinstance(s, ast.Expr) and isinstance(s.value, ast.Call):
                 ev(s.value, env, calls)  # for its effect (an error signal from the calls table, a list append)
                 continue
+            if isinstance(s, (ast.Import, ast.ImportFrom)):
+                continue  # names of modules are resolved through the rule's calls table
             if isinstance(s, ast.Assert):
                 try:
                     holds = bool(ev(s.test, env, calls))
@@ -241,6 +264,9 @@ def run_pure(fn: ast.FunctionDef, args, calls=None, fuel=2000, extra=None, env_o
                 raise _Ret(ev(s.value, env, calls) if s.value is not None else None)
             if isinstance(s, ast.Assign) and len(s.targets) == 1 and isinstance(s.targets[0], ast.Name):
                 env[s.targets[0].id] = ev(s.value, env, calls)
+            elif isinstance(s, ast.Assign) and len(s.targets) == 1 and isinstance(s.targets[0], ast.Attribute) and isinstance(s.targets[0].value, ast.Name):
+                # a field of the object being built: kept under its spelling (`self.__lineOffsets`)
+                env[ast.unparse(s.targets[0])] = ev(s.value, env, calls)
             elif isinstance(s, ast.Assign) and len(s.targets) == 1 and isinstance(s.targets[0], ast.Subscript) and not isinstance(s.targets[0].slice, ast.Slice):
                 base = ev(s.targets[0].value, env, calls)
                 if not isinstance(base, (dict, list)):
